@@ -44,6 +44,8 @@ type Prog struct {
 
 	// Norm describes the normalisation that was applied (nil if none).
 	Norm *inl.Result
+	// Aliases maps renamed unexported names back to the names the rules know.
+	Aliases *Aliases
 
 	naive *ssa.Program
 }
@@ -153,16 +155,21 @@ func Load(dir string, minPkgs int, extra ...string) (*Prog, error) {
 			}
 		}
 		if len(mod) > 0 {
-			inv, err := ReadInventory(InventoryFile)
+			inv, err := ReadInventoryJSON(InventoryFile)
 			if err != nil {
 				return nil, broken("inventory: %v", err)
 			}
-			res, err := inl.Normalize(fset, mod, p.All, inv)
+			al := InferAliases(inv, BuildInventory(mod))
+			p.Aliases = al
+			setAliases(al)
+			res, err := inl.Normalize(fset, mod, p.All, al.Known)
 			if err != nil {
 				return nil, broken("normalisation: %v", err)
 			}
 			p.Norm = res
 		}
+	} else {
+		setAliases(nil)
 	}
 	prog, _ := ssautil.AllPackages(pkgs, ssa.InstantiateGenerics)
 	prog.Build()
@@ -238,6 +245,21 @@ func FnName(fn *ssa.Function) string {
 	}
 	s := fn.RelString(nil)
 	s = strings.ReplaceAll(s, Mod+"/", "")
+	if curAliases != nil {
+		top := fn
+		for top.Parent() != nil {
+			top = top.Parent()
+		}
+		if obj, ok := top.Object().(*types.Func); ok {
+			if old := oldFuncName(obj); old != "" {
+				disp := stripMod(obj.FullName())
+				if strings.HasPrefix(s, disp) {
+					s = disp[:len(disp)-len(obj.Name())] + old + s[len(disp):]
+				}
+			}
+		}
+		s = canonTypes(s)
+	}
 	return s
 }
 
@@ -245,6 +267,33 @@ func FnName(fn *ssa.Function) string {
 // "New", "(*savingPatcher).Resume", "savingPatcher.Resume" (pointer receiver is
 // tried as well), "Validate$1" for the first anonymous function.
 func (p *Prog) Fn(pkgPath, name string) *ssa.Function {
+	if fn := p.fn(pkgPath, name); fn != nil {
+		return fn
+	}
+	// renamed: look the inventory name up in the aliases
+	pk := p.Pkg(pkgPath)
+	if pk == nil || p.Aliases == nil {
+		return nil
+	}
+	base, anon := name, ""
+	if i := strings.Index(name, "$"); i >= 0 {
+		base, anon = name[:i], name[i:]
+	}
+	base = strings.TrimPrefix(base, "(*")
+	base = strings.Replace(base, ").", ".", 1)
+	if nk, ok := p.Aliases.FuncNew[pk.PkgPath+" "+base]; ok {
+		return p.fn(pkgPath, nk[strings.Index(nk, " ")+1:]+anon)
+	}
+	// only the receiver type was renamed
+	if i := strings.Index(base, "."); i >= 0 {
+		if nt, ok := p.Aliases.TypeNew[pk.PkgPath+" "+base[:i]]; ok {
+			return p.fn(pkgPath, nt+base[i:]+anon)
+		}
+	}
+	return nil
+}
+
+func (p *Prog) fn(pkgPath, name string) *ssa.Function {
 	pk := p.Pkg(pkgPath)
 	if pk == nil {
 		return nil
@@ -264,6 +313,11 @@ func (p *Prog) Fn(pkgPath, name string) *ssa.Function {
 		name = strings.Replace(name, ").", ".", 1)
 		parts := strings.SplitN(name, ".", 2)
 		tn, _ := pk.Types.Scope().Lookup(parts[0]).(*types.TypeName)
+		if tn == nil && p.Aliases != nil {
+			if nn, ok := p.Aliases.TypeNew[pk.PkgPath+" "+parts[0]]; ok {
+				tn, _ = pk.Types.Scope().Lookup(nn).(*types.TypeName)
+			}
+		}
 		if tn == nil {
 			return nil
 		}
@@ -298,11 +352,36 @@ func (p *Prog) Named(pkgPath, name string) *types.Named {
 		return nil
 	}
 	tn, _ := pk.Types.Scope().Lookup(name).(*types.TypeName)
+	if tn == nil && p.Aliases != nil {
+		if nn, ok := p.Aliases.TypeNew[pk.PkgPath+" "+name]; ok {
+			tn, _ = pk.Types.Scope().Lookup(nn).(*types.TypeName)
+		}
+	}
 	if tn == nil {
 		return nil
 	}
 	n, _ := tn.Type().(*types.Named)
 	return n
+}
+
+// LookupObj finds a package-level object by the name the rules know it by.
+func (p *Prog) LookupObj(pkgPath, name string) types.Object {
+	pk := p.Pkg(pkgPath)
+	if pk == nil {
+		return nil
+	}
+	if o := pk.Types.Scope().Lookup(name); o != nil {
+		return o
+	}
+	if p.Aliases != nil {
+		if nn, ok := p.Aliases.VarNew[pk.PkgPath+" "+name]; ok {
+			return pk.Types.Scope().Lookup(nn)
+		}
+		if nn, ok := p.Aliases.TypeNew[pk.PkgPath+" "+name]; ok {
+			return pk.Types.Scope().Lookup(nn)
+		}
+	}
+	return nil
 }
 
 // Pos formats a position relative to the repo directory.
@@ -372,44 +451,4 @@ func PkgPathOf(fn *ssa.Function) string {
 		return o.Pkg().Path()
 	}
 	return ""
-}
-
-// ReadInventory reads the reference inventory of functions.
-func ReadInventory(file string) (map[string]bool, error) {
-	b, err := os.ReadFile(file)
-	if err != nil {
-		return nil, err
-	}
-	inv := map[string]bool{}
-	for _, l := range strings.Split(string(b), "\n") {
-		l = strings.TrimSpace(l)
-		if l == "" || strings.HasPrefix(l, "#") {
-			continue
-		}
-		inv[l] = true
-	}
-	if len(inv) < 100 {
-		return nil, fmt.Errorf("%s lists %d functions, expected several hundred", file, len(inv))
-	}
-	return inv, nil
-}
-
-// Inventory lists the keys of every function declaration with a body in the
-// module's packages (the format of the inventory file).
-func (p *Prog) Inventory() []string {
-	var out []string
-	for _, pk := range p.Roots {
-		if !strings.HasPrefix(pk.PkgPath, Mod) {
-			continue
-		}
-		for _, f := range pk.Syntax {
-			for _, d := range f.Decls {
-				if fd, ok := d.(*ast.FuncDecl); ok && fd.Body != nil {
-					out = append(out, inl.FuncKey(pk.PkgPath, fd))
-				}
-			}
-		}
-	}
-	sort.Strings(out)
-	return out
 }
